@@ -200,6 +200,32 @@ CMapIntInt(v, ks, vs) ==
       len(n) == IF v >= 3 THEN Int32(n) ELSE Short(n)
   IN Cell(FALSE, len(Len(ks)) \o Flat([i \in 1 .. Len(ks) |-> len(4) \o Int32(ks[i]) \o len(4) \o Int32(vs[i])]), r, r, <<>>)
 CNullMap == Cell(TRUE, <<>>, "null", "{}", <<>>)
+\* UDT values: the fields as successive [bytes]; a value may carry fewer fields than the type has
+\* (the missing trailing ones count as null).  names/kinds describe the type's fields, fs are the
+\* field cells sent.  A Go destination shows the fields in `vis` (a struct that lacks a field simply
+\* does not get it; a map or a UDTUnmarshaler sees all of them); null/missing fields read as the
+\* zero value, except for a UDTUnmarshaler (raw), which is handed the bytes of each field as sent.
+ZeroOf(kind) == IF kind = "int" THEN "0" ELSE "t:"
+RawOf(c) == IF c.null THEN "null" ELSE "b:" \o JoinInts(c.b)
+RECURSIVE JoinStrs(_)
+JoinStrs(ss) == IF Len(ss) = 0 THEN "" ELSE IF Len(ss) = 1 THEN ss[1] ELSE ss[1] \o "," \o JoinStrs(Tail(ss))
+UdtRender(names, kinds, fs, isnull, vis, raw) ==
+  LET val(i) == IF isnull \/ i > Len(fs) THEN (IF raw THEN "null" ELSE ZeroOf(kinds[i]))
+                ELSE IF raw THEN RawOf(fs[i]) ELSE fs[i].rz
+  IN "{" \o JoinStrs([j \in 1 .. Len(vis) |-> names[vis[j]] \o "=" \o val(vis[j])]) \o "}"
+AllOf(names) == [i \in 1 .. Len(names) |-> i]
+CUdt(names, kinds, fs, vis, raw) ==
+  Cell(FALSE, Flat(Map(fs, WBytes)), UdtRender(names, kinds, fs, FALSE, vis, raw), UdtRender(names, kinds, fs, FALSE, AllOf(names), FALSE), <<>>)
+CNullUdt(names, kinds, vis, raw) ==
+  Cell(TRUE, <<>>, UdtRender(names, kinds, <<>>, TRUE, vis, raw), UdtRender(names, kinds, <<>>, TRUE, AllOf(names), FALSE), <<>>)
+\* collections of arbitrary element cells (v3+ framing; UDTs exist from v3)
+RpOf(c) == c.rp
+RzOf(c) == c.rz
+CListOf(es) == Cell(FALSE, Int32(Len(es)) \o Flat(Map(es, WBytes)), "[" \o JoinStrs(Map(es, RpOf)) \o "]", "[" \o JoinStrs(Map(es, RzOf)) \o "]", <<>>)
+CMapIntOf(ks, es) ==
+  Cell(FALSE, Int32(Len(ks)) \o Flat([i \in 1 .. Len(ks) |-> Int32(4) \o Int32(ks[i]) \o WBytes(es[i])]),
+       "{" \o JoinStrs([i \in 1 .. Len(ks) |-> ToString(ks[i]) \o ":" \o es[i].rp]) \o "}",
+       "{" \o JoinStrs([i \in 1 .. Len(ks) |-> ToString(ks[i]) \o ":" \o es[i].rz]) \o "}", <<>>)
 \* tuple: the concatenation of its elements as [bytes]
 CTuple(es) == Cell(FALSE, Flat(Map(es, WBytes)), "", "", es)
 CNullTuple(nullelems) == Cell(TRUE, <<>>, "", "", nullelems)
